@@ -100,6 +100,57 @@ func runC12ShortRead(c *core.Ctx) {
 	for i := 0; i < arrived+2 && !c.Failed(); i++ {
 		read(2048)
 	}
+	if c.Failed() || !t.Bias(1, 2, "unread-backlog-at-close") {
+		return
+	}
+	// the connection is released with datagrams still unread (nobody will ever read them); another ufrag's
+	// connection on the same mux then receives one datagram of its own - and nothing else: what was queued for
+	// the released connection is gone, whatever the mux recycles
+	for i := 0; i < 3; i++ {
+		send()
+	}
+	connB, err := mux.GetConn("ufab", net.UDPAddrFromAddrPort(local))
+	if err != nil {
+		c.Failf("harness/getconn", "%v", err)
+		return
+	}
+	c.Defer(func() { _ = connB.Close() })
+	peerB := netip.MustParseAddrPort("192.0.2.2:2000")
+	if _, err := connB.WriteTo([]byte("out"), net.UDPAddrFromAddrPort(peerB)); err != nil {
+		c.Failf("harness/write", "%v", err)
+		return
+	}
+	synctest.Wait()
+	for _, d := range w.InFlight() {
+		w.Drop(d)
+	}
+	switch t.Choose(2, "release") {
+	case 0:
+		_ = conn.Close()
+	default:
+		mux.RemoveConnByUfrag("ufa")
+	}
+	synctest.Wait()
+	c.Fault("connection-released-with-unread-datagrams")
+	w.Deliver(w.Inject(peerB, local, []byte("for-B-only"), "c12s"))
+	synctest.Wait()
+	for i := 0; i < 5; i++ {
+		buf := make([]byte, 2048)
+		_ = connB.SetReadDeadline(time.Now().Add(50 * time.Millisecond))
+		n, from, err := connB.ReadFrom(buf)
+		if err != nil {
+			if i == 0 {
+				c.Failf("C12/expected-delivery-missing", "the connection of ufab did not receive the datagram its peer sent: %v", err)
+			}
+			break
+		}
+		ua, _ := from.(*net.UDPAddr)
+		if i > 0 || string(buf[:n]) != "for-B-only" || ua == nil || ua.AddrPort() != peerB {
+			c.Failf("C12/delivered-to-wrong-connection", "the connection of ufab read %q from %v (read #%d): its peer %v sent exactly one datagram, \"for-B-only\"; the rest was queued for the released connection of ufa", trunc(buf[:n]), from, i+1, peerB)
+			return
+		}
+	}
+	c.Probe("released-backlog-gone")
 }
 
 var _ = core.Register
